@@ -222,6 +222,8 @@ Proof.
       * intros b j id H. apply entry_put in H. destruct H as [[_ [m [St Lk]]]|[_ H]]; [discriminate|left; exact H].
       * intros b id H. apply dcell_put in H. destruct H as [[Eb D]|[_ H]]; [|left; exact H].
         simpl in D. inversion D. right. split; [reflexivity|]. subst b. reflexivity.
+  - unfold do_export_shape in E.
+    repeat (match type of E with context [match ?x with _ => _ end] => destruct x end); inversion E; subst; same.
 Qed.
 
 (* heaps only grow, references are only ever appended *)
@@ -308,6 +310,8 @@ Proof.
     destruct (negb _); [inversion E; subst; fin|]. destruct (sn t =? 0); [inversion E; subst; fin|].
     destruct (mk_default (hp t) t0 k d) as [e|[h' df]] eqn:M; inversion E; subst; [fin|].
     split; [simpl; eapply MK; eauto|exists []; now rewrite app_nil_r].
+  - unfold do_export_shape in E. repeat (match type of E with context [match ?x with _ => _ end] => destruct x end);
+      inversion E; subst; fin.
 Qed.
 
 Lemma tracked_step s o s' w id a i :
